@@ -8,6 +8,7 @@ From AGH Require Import Model.CertNames Proofs.CertNames.
 From AGH Require Import Model.ClientIDCache Proofs.ClientIDCache Model.ClientIDReconf Proofs.ClientIDReconf.
 From AGH Require Import Model.TLSSettings Proofs.TLSSettings.
 From AGH Require Import Model.GoLower Proofs.GoLower Model.CertPrepare Proofs.CertPrepare.
+From AGH Require Import Model.TLSGlue Proofs.TLSGlue Model.DoHTarget Proofs.DoHTarget.
 Import ListNotations.
 
 (** A returned non-empty ClientID: the protocol is DoH, DoT or DoQ; the id is a
@@ -563,3 +564,133 @@ Theorem C16_strict_names_appending_refuted :
     on_get_certificate (run_prepares true tls_state0 [c1; c2]) sni false = true.
 Proof. exact appending_refuted. Qed.
 Print Assumptions C16_strict_names_appending_refuted.
+
+(** * Round 6 (K): the configuration space of the TLS section.  newDNSTLSConfig
+    in full (Model/TLSGlue.v), composed with Prepare and the handshake. *)
+
+(** The strict flag and the name the DNS server is handed are those of the
+    settings, for every settings value: no premise on server_name. *)
+Theorem C16_glue_strict_handed_over : forall s po a d,
+  new_dns_tls_config false s po a = Some d -> t_enabled s = true ->
+  dt_strict d = t_strict s /\ dt_server_name d = t_server_name s /\ dt_has_cert d = true.
+Proof. exact glue_hands_over. Qed.
+Print Assumptions C16_glue_strict_handed_over.
+
+Theorem C16_glue_refines_dns_tls : forall s a,
+  option_map (fun d => (dt_server_name d, dt_strict d)) (new_dns_tls_config false s true a) =
+  Some (match dns_tls s with Some x => x | None => ([], false) end).
+Proof. exact glue_refines_dns_tls. Qed.
+Print Assumptions C16_glue_refines_dns_tls.
+
+(** For every configuration that serves DoT / DoQ, after any earlier
+    configurations of the same server: strict_sni_check on => a handshake is
+    accepted iff its server name is well-formed and covered by the
+    certificate.  server_name does not occur. *)
+Theorem C16_strict_independent_of_server_name : forall st pre s po a c ip sni v6,
+  serves s po a -> t_strict s = true ->
+  exists d, new_dns_tls_config false s po a = Some d /\
+    let st' := run_prepares false st (pre ++ [to_tls_conf d c ip]) in
+    ts_installed st' = true /\
+    (on_get_certificate st' sni v6 = true <-> sni_wellformed sni v6 = true /\ cert_covers c sni).
+Proof. exact strict_independent_of_server_name. Qed.
+Print Assumptions C16_strict_independent_of_server_name.
+
+Theorem C16_lenient_configuration_accepts : forall st pre s po a c ip sni v6,
+  serves s po a -> t_strict s = false ->
+  exists d, new_dns_tls_config false s po a = Some d /\
+    on_get_certificate (run_prepares false st (pre ++ [to_tls_conf d c ip])) sni v6 = true.
+Proof. exact lenient_accepts. Qed.
+Print Assumptions C16_lenient_configuration_accepts.
+
+(** Two configurations that differ in server_name only treat every handshake
+    alike (also when the glue fails: then both do). *)
+Theorem C16_handshake_ignores_server_name : forall st s n po a c ip sni v6,
+  option_map (fun st' => on_get_certificate st' sni v6) (serve_settings false st (with_name s n) po a c ip) =
+  option_map (fun st' => on_get_certificate st' sni v6) (serve_settings false st s po a c ip).
+Proof. exact handshake_ignores_server_name. Qed.
+Print Assumptions C16_handshake_ignores_server_name.
+
+(** StrictSNICheck: conf.StrictSNICheck && conf.ServerName != "": the same
+    function whenever a name is configured ... *)
+Theorem C16_glue_guarded_agrees_with_name : forall s po a,
+  t_server_name s <> [] -> new_dns_tls_config true s po a = new_dns_tls_config false s po a.
+Proof. exact guarded_agrees_with_name. Qed.
+Print Assumptions C16_glue_guarded_agrees_with_name.
+
+(** ... and with strict_sni_check on and no server_name a name outside the
+    certificate is let in. *)
+Theorem C16_glue_guarded_refuted :
+  exists s c sni,
+    serves s true true /\ t_strict s = true /\ ~ cert_covers c sni /\
+    option_map dt_strict (new_dns_tls_config true s true true) = Some false /\
+    option_map (fun st => on_get_certificate st sni false)
+      (serve_settings true tls_state0 s true true c false) = Some true /\
+    option_map (fun st => on_get_certificate st sni false)
+      (serve_settings false tls_state0 s true true c false) = Some false.
+Proof. exact guarded_refuted. Qed.
+Print Assumptions C16_glue_guarded_refuted.
+
+(** * Round 6 (L): the percent-encoding layers of the DoH request target
+    (Model/DoHTarget.v): net/http decodes once, the code not at all. *)
+
+(** A ClientID of the path is the lower-casing of an element of the request
+    target decoded ONCE that is a valid label as it stands (no percent sign
+    left in it). *)
+Theorem C16_path_id_decoded_once : forall t D id,
+  parse_target t = TPath D -> from_doh_path D = CidOk id -> id <> [] ->
+  unescape (cut_query t) = Some D /\
+  exists x, path_id D x /\ valid_label x /\ mem percent x = false /\ id = lower x.
+Proof. exact path_id_decoded_once. Qed.
+Print Assumptions C16_path_id_decoded_once.
+
+Theorem C16_target_label_valid_as_sent : forall host strict t tls hh D id,
+  doh_of_target host strict t tls hh = Some (D, CidOk id) -> id <> [] ->
+  let r := {| d_path := D; d_tls_sni := tls; d_host_hdr := hh |} in
+  parse_target t = TPath D /\
+  exists x, valid_label x /\ mem percent x = false /\ id = lower x /\
+    (path_id D x \/
+     (path_plain D /\ host <> [] /\
+      exists cli, server_name_from_http r = inr cli /\ immediate_sub cli host x)).
+Proof. exact target_label_valid_as_sent. Qed.
+Print Assumptions C16_target_label_valid_as_sent.
+
+(** GET /dns-query/<segment>: the segment decoded once is the ClientID
+    (lower-cased) iff it is a valid label; one plain element that is not a
+    valid label fails the request. *)
+Theorem C16_target_segment_exact : forall seg d,
+  existsb bad_target_byte seg = false -> mem qmark seg = false ->
+  unescape seg = Some d ->
+  parse_target (dq_path seg) = TPath (dq_path d) /\
+  (valid_label d -> from_doh_path (dq_path d) = CidOk (lower d)) /\
+  (real d -> ~ valid_label d -> exists e, from_doh_path (dq_path d) = CidErr (EPathLabel e)).
+Proof. exact target_segment_exact. Qed.
+Print Assumptions C16_target_segment_exact.
+
+(** A doubly (or more) encoded valid label is NOT a ClientID: the request
+    fails, whatever the TLS state, the Host header and the configuration. *)
+Theorem C16_double_encoded_not_id : forall seg d y,
+  existsb bad_target_byte seg = false -> mem qmark seg = false ->
+  unescape seg = Some d -> unescape d = Some y -> valid_label y -> d <> y ->
+  exists e,
+    from_doh_path (dq_path d) = CidErr (EPathLabel e) /\
+    forall host strict tls hh,
+      doh_of_target host strict (dq_path seg) tls hh = Some (dq_path d, CidErr (EPathLabel e)).
+Proof. exact double_encoded_not_id. Qed.
+Print Assumptions C16_double_encoded_not_id.
+
+(** Decoding the element once more: /dns-query/my%252Dphone becomes the
+    ClientID my-phone ... *)
+Theorem C16_decoding_twice_refuted :
+  parse_target (dq_path b_my_252D_phone) = TPath (dq_path b_my_2D_phone) /\
+  path_id (dq_path b_my_2D_phone) b_my_2D_phone /\ ~ valid_label b_my_2D_phone /\
+  from_doh_path (dq_path b_my_2D_phone) = CidErr (EPathLabel LBadRune) /\
+  from_doh_path_again (dq_path b_my_2D_phone) = CidOk b_my_phone.
+Proof. exact decoding_twice_refuted. Qed.
+Print Assumptions C16_decoding_twice_refuted.
+
+(** ... while nothing changes where no percent sign is left. *)
+Theorem C16_decoding_twice_invisible : forall D,
+  (forall x, path_id D x -> mem percent x = false) ->
+  from_doh_path_again D = from_doh_path D.
+Proof. exact decoding_twice_invisible. Qed.
+Print Assumptions C16_decoding_twice_invisible.
